@@ -150,7 +150,7 @@ Proof. unfold assemble. destruct data as [[b|s|js t]|]; cbn [snd q_data]; reflex
 
 (* the dict handed to urllib.request.Request *)
 Definition final_dict (sids : bool) (data : option body) (d : dict) : dict :=
-  let d1 := if sids then (if dict_mem reqid_test_key d then d else dict_set reqid_set_key HGenId d) else d in
+  let d1 := if sids then (if has_reqid d then d else dict_set reqid_set_key HGenId d) else d in
   match data with
   | Some (BJson _ _) => if dict_mem ctype_test_key d1 then d1 else dict_set ctype_set_key (HStr ctype_val) d1
   | _ => d1
@@ -246,9 +246,9 @@ Qed.
 Lemma final_dict_auth sids data d : last_cap auth_key (final_dict sids data d) = last_cap auth_key d.
 Proof.
   destruct other_keys_distinct as (_ & Nr & Nc). unfold final_dict.
-  assert (E1 : last_cap auth_key (if sids then if dict_mem reqid_test_key d then d else dict_set reqid_set_key HGenId d else d)
+  assert (E1 : last_cap auth_key (if sids then if has_reqid d then d else dict_set reqid_set_key HGenId d else d)
                = last_cap auth_key d).
-  { destruct sids; [|reflexivity]. destruct (dict_mem reqid_test_key d); [reflexivity|]. apply last_cap_set_other. exact Nr. }
+  { destruct sids; [|reflexivity]. destruct (has_reqid d); [reflexivity|]. apply last_cap_set_other. exact Nr. }
   destruct data as [[b|s|js t]|]; try exact E1.
   match goal with |- context [if ?c then _ else _] => destruct c end; [exact E1|].
   rewrite last_cap_set_other by exact Nc. exact E1.
@@ -412,9 +412,9 @@ Proof.
   intros M cap. unfold cap. split; [rewrite assemble_body; reflexivity|].
   rewrite assemble_headers, request_headers_get. unfold final_dict.
   destruct ctype_not_reqid as [N1 _].
-  set (d1 := if sids then if dict_mem reqid_test_key d then d else dict_set reqid_set_key HGenId d else d).
+  set (d1 := if sids then if has_reqid d then d else dict_set reqid_set_key HGenId d else d).
   assert (M1 : dict_mem ctype_test_key d1 = false).
-  { unfold d1. destruct sids; [|exact M]. destruct (dict_mem reqid_test_key d); [exact M|].
+  { unfold d1. destruct sids; [|exact M]. destruct (has_reqid d); [exact M|].
     rewrite dict_mem_set_other; [exact M|exact N1]. }
   rewrite M1. apply last_cap_set_new; [|reflexivity]. rewrite <- ctype_keys_agree. exact M1.
 Qed.
